@@ -24,7 +24,12 @@ from .. import common, metamorph, pipecheck, scenes
 
 def gen_chunk_scene(seed, k):
     rng = random.Random(f'{seed}:c20:{k}')
-    fam = rng.choice(['synth', 'synth', 'multi', 'degenerate', 'degenerate', 'split', 'chain', 'crop', 'manyslices9'])
+    fam = rng.choice(['synth', 'synth', 'multi', 'degenerate', 'degenerate', 'split', 'chain', 'crop', 'manyslices9', 'manyceilos'])
+    if fam == 'manyceilos':
+        # more ceilometers than colours in the cycle (10)
+        nc = rng.choice([11, 12, 14, 21])
+        rows = [(f'c{c:02d}', -15.0 * i - 0.5 * c, 1200.0 + 3.0 * c + (i % 3), 1) for c in range(nc) for i in range(rng.choice([4, 8]))]
+        return rows, {}, fam
     if fam == 'manyslices9':
         # more sets than marker styles (8) and colours
         rows = []
